@@ -179,6 +179,33 @@ _RX = {
 }
 
 
+def ann_text(t) -> str:
+    """A canonical rendering of an annotation built from its attributes (expected_shape, identifier, parsed_expression, is_literal,
+    is_anonymous) in the layout today's __repr__ happens to have; only if one of them is missing, repr() itself."""
+    try:
+        dims = []
+        for d in t.expected_shape:
+            toks = []
+            for x in d.parsed_expression:
+                if isinstance(x, bool) or not isinstance(x, (int, str)):
+                    toks.append(str(getattr(x, "value", x)))     # an operator: its symbol
+                elif isinstance(x, int):
+                    toks.append(str(x))
+                else:
+                    toks.append(repr(x))
+            lst = "[" + ", ".join(toks) + "]"
+            if d.is_anonymous:
+                dims.append(f"Anonymous<{d.identifier}>")
+            elif d.is_literal:
+                dims.append(f"Literal<{d.identifier}={lst}>")
+            else:
+                dims.append(f"Identifier<{d.identifier}={lst}>")
+        tup = "(" + ", ".join(dims) + ("," if len(dims) == 1 else "") + ")"
+        return f"{type(t).__name__}[{tup}]"
+    except AttributeError:
+        return repr(t)
+
+
 def canon_exc(e: BaseException) -> dict:
     """Exception -> canonical dict (class, parsed fields); no message text, addresses or context prefix."""
     if isinstance(e, dltype.DLTypeError):
